@@ -25,10 +25,10 @@ Dispatch ==
   \/ Line.a = "Get" /\ Get(Line.arg.c)
   \/ Line.a = "Range" /\ Range(Line.arg.lo, Line.arg.hi)
   \/ Line.a = "RangeWhole" /\ RangeWhole
-  \/ Line.a = "ViewShift" /\ ViewShift(Line.arg.s)
-  \/ Line.a = "ViewSub" /\ ViewSub(Line.arg.lo, Line.arg.hi)
-  \/ Line.a = "ViewAcc" /\ ViewAcc
-  \/ Line.a = "ViewSlices" /\ ViewSlices(Line.arg.ps)
+  \/ Line.a = "ViewShift" /\ ViewShift(Line.arg.s, Line.arg.probes)
+  \/ Line.a = "ViewSub" /\ ViewSub(Line.arg.lo, Line.arg.hi, Line.arg.probes)
+  \/ Line.a = "ViewAcc" /\ ViewAcc(Line.arg.probes)
+  \/ Line.a = "ViewSlices" /\ ViewSlices(Line.arg.ps, Line.arg.probes)
 
 TStep  == l <= N /\ Line.a # "Reset" /\ Dispatch /\ ObsMatches /\ l' = l + 1
 TReset == l <= N /\ Line.a = "Reset" /\ arr' = NoArr /\ made' = FALSE
